@@ -534,21 +534,25 @@ def gen_edits(rng, P):
 
 def rt_script(cid, P, fmt, with_solve, with_z, edits=(), mix=None):
     e = "lp" if fmt == "LP" else "mps"
-    L = ["CASE %s" % cid, load_block(0, P, mix)] + ["EDIT h0 %s" % x for x in edits] + ["DUMPO h0",
-         "WRITE h0 a.%s %s" % (e, fmt), "CAT a.%s" % e, "READ h1 a.%s %s" % (e, fmt), "DUMPO h1",
-         "WRITE h1 b.%s %s" % (e, fmt), "CAT b.%s" % e, "READ h2 b.%s %s" % (e, fmt), "DUMPO h2"]
+
+    def wr(h, f, ff):
+        """write op; an MPS write is preceded by the column-wise dump the MPS writer model needs"""
+        return (["DUMPC h%d" % h] if ff == "MPS" else []) + ["WRITE h%d %s %s" % (h, f, ff)]
+    L = ["CASE %s" % cid, load_block(0, P, mix)] + ["EDIT h0 %s" % x for x in edits] + ["DUMPO h0"] + \
+        wr(0, "a.%s" % e, fmt) + ["CAT a.%s" % e, "READ h1 a.%s %s" % (e, fmt), "DUMPO h1"] + \
+        wr(1, "b.%s" % e, fmt) + ["CAT b.%s" % e, "READ h2 b.%s %s" % (e, fmt), "DUMPO h2"]
     if fmt == "MPS":
         # LP rendering of the same problem; MPS -> LP -> MPS and LP -> MPS -> LP
         L += ["WRITE h0 c.lp LP", "CAT c.lp", "READ h3 c.lp LP", "DUMPO h3",            # h3 = read_lp(write_lp P)
-              "WRITE h1 d.lp LP", "CAT d.lp", "READ h4 d.lp LP", "DUMPO h4",            # MPS -> LP
-              "WRITE h4 e.mps MPS", "CAT e.mps", "READ h5 e.mps MPS", "DUMPO h5",       # MPS -> LP -> MPS
-              "WRITE h3 f.mps MPS", "CAT f.mps", "READ h6 f.mps MPS", "DUMPO h6",       # LP -> MPS
+              "WRITE h1 d.lp LP", "CAT d.lp", "READ h4 d.lp LP", "DUMPO h4"] + \
+             wr(4, "e.mps", "MPS") + ["CAT e.mps", "READ h5 e.mps MPS", "DUMPO h5"] + \
+             wr(3, "f.mps", "MPS") + ["CAT f.mps", "READ h6 f.mps MPS", "DUMPO h6",
               "WRITE h6 g.lp LP", "CAT g.lp", "READ h7 g.lp LP", "DUMPO h7"]            # LP -> MPS -> LP
     if with_solve:
         L += ["SOLVE h0", "SOLVE h1"]
     if with_z:
-        L += ["WRITE h0 z.%s.gz %s" % (e, fmt), "CAT z.%s.gz" % e, "READ h8 z.%s.gz %s" % (e, fmt), "DUMPO h8",
-              "WRITE h0 z.%s.bz2 %s" % (e, fmt), "CAT z.%s.bz2" % e, "READ h9 z.%s.bz2 %s" % (e, fmt), "DUMPO h9"]
+        L += wr(0, "z.%s.gz" % e, fmt) + ["CAT z.%s.gz" % e, "READ h8 z.%s.gz %s" % (e, fmt), "DUMPO h8"] + \
+             wr(0, "z.%s.bz2" % e, fmt) + ["CAT z.%s.bz2" % e, "READ h9 z.%s.bz2 %s" % (e, fmt), "DUMPO h9"]
     return "\n".join(L) + "\n"
 
 
@@ -581,7 +585,7 @@ def run_roundtrip_check(ck, fmt, pr, gen):
         if i % 10 == 3:
             P = gen.gen_problem_wrap(ck.rng, fmt)               # long objective / rows: several wrap points, signs vary
             fam[cid] = "wrap"
-        elif i % 10 == 7:
+        elif i % 10 in (7, 9):
             P = gen.gen_problem_kwbounds(ck.rng, fmt)           # columns named like keywords with free / one-sided bounds
             fam[cid] = "keyword-bounds"
         else:
@@ -612,6 +616,7 @@ def run_roundtrip_check(ck, fmt, pr, gen):
     numbers = set()
     bq = {}
     wq = {}         # writer correspondence: query id -> (case, label, text written by the library)
+    mq = {}         # the same for MPS files
     e = "lp" if fmt == "LP" else "mps"
     for cid, P in probs.items():
         toks = outs.get(cid)
@@ -627,9 +632,11 @@ def run_roundtrip_check(ck, fmt, pr, gen):
         P0 = dump_of(o.next("P"))
         texts = []
         lpw = []         # (source problem as dumped, announced renames, text) of every successful LP write
+        mpw = []         # (column-wise dump, text) of every successful MPS write
 
         def step(src_handle_problem, f, label):
-            """consume WRITE (+CAT) READ DUMPO; returns (problem or None, renames, text)"""
+            """consume [DUMPC] WRITE (+CAT) READ DUMPO; returns (problem or None, renames, text)"""
+            pc = o.next("PC") if f == "MPS" else None
             w = o.next("WRITE")
             text = None
             text = cat_bytes(o.next("CAT"))
@@ -645,6 +652,10 @@ def run_roundtrip_check(ck, fmt, pr, gen):
                     "reader rejected the written file: %s" % [dec(t[3]).strip() for t in (r[1] if r else []) if t[0] == "E" and t[1] not in ("1", "3", "5")][:3]
             if f == "LP" and w is not None and w[0][0] == "WRITE" and w[0][1] == "0" and text is not None and src_handle_problem is not None:
                 lpw.append((src_handle_problem, renames_of(w), text, label))
+            if f == "MPS" and w is not None and w[0][0] == "WRITE" and w[0][1] == "0" and text is not None and pc is not None and pc[0][0] == "PC":
+                C = parse_dumpc([pc[0]] + pc[1])
+                if C is not None:
+                    mpw.append((C, text, label))
             return Pn, (renames_of(w) if w and f == "LP" else {}), text, why
 
         chain = []   # (label, source problem, result, renames, fmt of file, why)
@@ -688,6 +699,11 @@ def run_roundtrip_check(ck, fmt, pr, gen):
                 Ar["objname"], Ar["intmarker"] = ren.get(on, on), A["intmarker"]
                 wq["%s.w%d" % (cid, j)] = (cid, lab, text)
                 q.append("Q %s.w%d lpwrite\n%s" % (cid, j, slp_block(Ar)))
+        for j, (C, text, lab) in enumerate(mpw):
+            if len(text) < 400000 and C["name"] is not None:
+                on = C["objname"] if C["objname"] is not None else lp_objname(dict(objname=None, rows=[(r[0],) for r in C["rows"]]))
+                mq["%s.m%d" % (cid, j)] = (cid, lab, text)
+                q.append("Q %s.m%d mpswrite\n%s" % (cid, j, mlp_block(C, on)))
         for j, (label, A, B, ren, fm, why) in enumerate(chain):
             if why is not None or B is None:
                 fails.append((cid, "%s: %s" % (label, why or "no problem"), fm, texts))
@@ -757,6 +773,24 @@ def run_roundtrip_check(ck, fmt, pr, gen):
                 fails.append((cid, "the LP text written differs from the writer model (line %d: %r vs model %r)" % (
                     d + 1, (tl[d] if d < len(tl) else b"")[:120], (ml[d] if d < len(ml) else b"")[:120]), {"LP"}, info[cid]["texts"]))
             corr_bad.append(msg)
+    nm_ = 0
+    for k2, (cid, lab, text) in mq.items():
+        a = ans.get(k2)
+        if a is None or (a and a[0] in ("PARSE-ERROR", "UNKNOWN-QUERY")):
+            corr_bad.append("mpswrite query %s: %s" % (k2, a))
+            continue
+        nm_ += 1
+        model = b"".join(decb(t) + b"\n" for t in a)
+        if model != text:
+            ml, tl = model.split(b"\n"), text.split(b"\n")
+            d = next((i for i in range(max(len(ml), len(tl))) if (ml[i] if i < len(ml) else None) != (tl[i] if i < len(tl) else None)), 0)
+            corr_bad.append("MPS writer: file '%s' of case %s differs from IO/MpsWrite.write_mps at line %d: library %r, model %r" % (
+                lab, cid, d + 1, (tl[d] if d < len(tl) else None) and tl[d][:200], (ml[d] if d < len(ml) else None) and ml[d][:200]))
+            if cid not in set(f[0] for f in fails):
+                fails.append((cid, "the MPS text written differs from the writer model (line %d: %r vs model %r)" % (
+                    d + 1, (tl[d] if d < len(tl) else b"")[:120], (ml[d] if d < len(ml) else b"")[:120]), {"MPS"}, info[cid]["texts"]))
+    if fmt == "MPS":
+        ck.cov["mps_writer_correspondence"] = dict(files_compared_byte_for_byte=nm_, differing=sum(1 for x in corr_bad if x.startswith("MPS writer")))
     ck.cov["lp_writer_correspondence"] = dict(files_compared_byte_for_byte=nw, differing=sum(1 for x in corr_bad if x.startswith("LP writer")))
     rcq = "CASE pn\n" + "".join("PRINTNUM %s\n" % qs(v) for v in nums)
     rc, out, err = run_io(rcq)
